@@ -139,7 +139,8 @@ Stop(note) == /\ EndLine(note) /\ ph' = "done" /\ UNCHANGED <<m, si, fi, k, tot>
 Begin ==
   /\ ph = "start"
   /\ IF fi > Len(Rec[si].forms) THEN Stop("complete")
-     ELSE IF Form.r = "xerr" THEN Stop("macro expansion failed")
+     ELSE IF Form.r = "xerr"       \* macro expansion failed inside prepare_eval: nothing was compiled or executed
+          THEN /\ ph' = "start" /\ fi' = fi + 1 /\ UNCHANGED <<m, si, k, tot>>
      ELSE LET m2 == StartM(m, Form.core)
               isSyntaxDef == Form.core.t = "list" /\ Kw(Form.core.v[1], K_define_syntax) IN
           IF m2.status = "fail"
